@@ -261,6 +261,48 @@ class PathEngine:
         e.frames = self._frames
         return e
 
+    def _new_property(self, e: ast.Attribute, base: Any, env: dict, store: dict, cfg: CFG) -> Any:
+        """`obj.name` where `name` is a side-effect-free read-only property that did not exist when the rules were
+        written (an accessor introduced by a refactoring): the value of its single `return <expr>` with self = obj"""
+        pred = self.inline
+        if pred is None:
+            return None
+        try:
+            ty = self.prog.type_of(e.value, cfg.func)
+        except AnalysisError:
+            return None
+        for a in ty:
+            if a[0] != "cls":
+                continue
+            ci = self.prog.classes.get(a[1])
+            meth = self.prog.find_method(ci, e.attr) if ci is not None else None
+            if meth is None or not meth.is_property or not pred(meth):
+                continue
+            body = [s_ for s_ in meth.node.body if not (isinstance(s_, ast.Expr) and isinstance(s_.value, ast.Constant))]
+            if len(body) != 1 or not isinstance(body[0], ast.Return) or body[0].value is None:
+                return None
+            rv = body[0].value
+            if isinstance(rv, ast.Call) and isinstance(rv.func, ast.Name) and rv.func.id == "len" and len(rv.args) == 1 and not rv.keywords and not any(isinstance(n, (ast.Call, ast.Await, ast.NamedExpr, ast.Lambda)) for n in ast.walk(rv.args[0])):
+                sn0 = meth.positional_params()[0]
+                try:
+                    return ("pure", "len", (self.sym(rv.args[0], {sn0: base}, store, self.cfgs.get(meth)),), ())
+                except AnalysisError:
+                    return None
+            if any(isinstance(n, (ast.Call, ast.Await, ast.NamedExpr, ast.Yield, ast.YieldFrom, ast.Lambda)) for n in ast.walk(body[0].value)):
+                return None
+            sn = meth.positional_params()[0]
+            depth = self.__dict__.get("_prop_depth", 0)
+            if depth > 4:
+                return None
+            self.__dict__["_prop_depth"] = depth + 1
+            try:
+                return self.sym(body[0].value, {sn: base}, store, self.cfgs.get(meth))
+            except AnalysisError:
+                return None
+            finally:
+                self.__dict__["_prop_depth"] = depth
+        return None
+
     def _closure_dict(self, outer: FuncInfo, name: str) -> Any:
         """a closure variable bound exactly once in the enclosing function to a dict display with constant keys
         whose values are plain names (`call_kwargs = {"on_metric": on_metric, ...}`): the display itself, with the
@@ -316,6 +358,10 @@ class PathEngine:
         ci = self.prog.classes.get(qual)
         if ci is None or not self.prog.all_fields(ci) or ci.methods.get("__init__") is not None:
             return None
+        is_dc = any(ast.unparse(d).split("(")[0].split(".")[-1] == "dataclass" for d in ci.node.decorator_list)
+        is_nt = any(ast.unparse(b).split(".")[-1] == "NamedTuple" for b in ci.node.bases)
+        if not (is_dc or is_nt):
+            return None  # a mixin / base class with annotated attributes is not a record
         return ci
 
     def _record_of_param(self, base: Any, cfg: CFG) -> Any:
@@ -467,6 +513,9 @@ class PathEngine:
             rf = self._record_field(base, e.attr, cfg)
             if rf is not None:
                 return rf
+            pv = self._new_property(e, base, env, store, cfg)
+            if pv is not None:
+                return pv
             loc = ("attr", base, e.attr)
             return store.get(loc, loc)
         if isinstance(e, ast.Subscript):
@@ -840,6 +889,14 @@ class PathEngine:
         recv = None
         if isinstance(f, ast.Attribute):
             recv = self.sym(f.value, env, store, cfg)
+        hof = env.get(("$fn", f.id)) if isinstance(f, ast.Name) else None
+        if hof is not None and all(t.kind in ("callback", "unknown") for t in targets):
+            # a parameter of an inlined helper that the caller bound to a function / bound method of the repository
+            # (`_call_bound(policy.call, thunk)`): the call goes where the caller's expression points
+            fexpr, ffi, frecv = hof
+            t2 = self.prog.resolve_call(ast.copy_location(ast.Call(func=fexpr, args=call.args, keywords=call.keywords), call), ffi)
+            if len(t2) == 1 and t2[0].kind == "repo":
+                targets, recv = t2, frecv
         args = []
         for a in call.args:
             args.append(self.sym(a, env, store, cfg))
@@ -935,7 +992,7 @@ class PathEngine:
                                 if fv is not None:
                                     bound.setdefault(fname, fv)
         ev = self._ev(cfg, "call", node, targets=targets, recv=recv, args=args, kwargs=bound, result=res, pure=pure, label=label, awaited=bool(node.info.get("awaited")))
-        if isinstance(f, ast.Name):
+        if isinstance(f, (ast.Name, ast.Attribute)):
             try:
                 ev.callee = self.sym(f, env, store, cfg)
             except AnalysisError:
@@ -996,6 +1053,24 @@ def _inline_impl(self, cfg, node, tg, call, recv, args, kwargs, env, store, item
     for k, v in kwargs.items():
         if k in names:
             cenv[k] = v
+    # function-valued arguments: remember the caller's expression so that a call through the parameter resolves
+    fn_args = [(pos[i0 + j], a) for j, a in enumerate(call.args) if i0 + j < len(pos) and not isinstance(a, ast.Starred)]
+    fn_args += [(k.arg, k.value) for k in call.keywords if k.arg in names]
+    for pname, a in fn_args:
+        if isinstance(a, (ast.Name, ast.Attribute)):
+            if isinstance(a, ast.Name) and ("$fn", a.id) in env:
+                cenv[("$fn", pname)] = env[("$fn", a.id)]
+                continue
+            try:
+                ft = self.prog.type_of(a, cfg.func)
+            except AnalysisError:
+                continue
+            if len(ft) == 1 and next(iter(ft))[0] in ("func", "bound"):
+                try:
+                    r = self.sym(a.value, env, store, cfg) if isinstance(a, ast.Attribute) else None
+                except AnalysisError:
+                    continue
+                cenv[("$fn", pname)] = (a, cfg.func, r)
     ccfg = self.cfgs.get(callee)
     for pname, d in callee.param_defaults().items():
         if pname not in cenv:
@@ -1045,11 +1120,15 @@ def default_inline() -> Callable[[FuncInfo], bool]:
     except OSError:
         known = None
 
+    tails = {q.split(":", 1)[-1] for q in known} if known is not None else set()
+
     def pred(fi: FuncInfo) -> bool:
         if known is None:
             return False
         if fi.qual in known:
             return False
+        if fi.qual.split(":", 1)[-1] in tails and "<locals>" not in fi.qual:
+            return False  # a known function moved to another module keeps its identity for the rules
         return fi.module.name.startswith("redress.") and not fi.module.name.startswith(("redress.testing", "redress.cli", "redress.contrib"))
 
     return pred
